@@ -50,7 +50,9 @@ pub fn run_schedule(stream: &[u8], ch: &Choices, b: Bounds, max_len: usize) -> R
     let expect = refframe(stream, max_len);
     let bounds = boundaries(stream);
     let src = Src::new(stream.to_vec(), ch.clone(), b);
-    let mut reader = AsyncReader::new(src);
+    // the reader reuses a caller-supplied buffer with stale content (`new` is `with_buffer` of an
+    // empty one; the junk length varies with the stream, 0 included)
+    let mut reader = AsyncReader::with_buffer(src, crate::c14::junk_buffer(stream.len() + max_len));
     reader.set_max_len(max_len as u32);
     let mut k = 0usize; // index into expect
     let mut drops = 0u8;
